@@ -1067,7 +1067,7 @@ impl Property for C08 {
         C08 { router: VerifRouter::new(o) }
     }
     fn n_cases(&self, tier: Tier) -> u64 {
-        tier.pick(400_000, 12_000_000)
+        tier.pick(1_200_000, 30_000_000)
     }
     fn chunk(&self, _tier: Tier) -> u64 {
         20_000
